@@ -31,6 +31,7 @@ which the judge rejects)."""
 import hashlib
 import json
 import logging
+import os
 import math
 import multiprocessing as mp
 import random
@@ -64,7 +65,7 @@ TAB_CONSTS = {
     },
     'thorough': {
         'Els': '{"H","C","X"}',
-        'XPairs': '{<<100,200>>, <<150,300>>, <<130,400>>, <<110,120>>}',
+        'XPairs': '{<<100,200>>, <<150,300>>, <<110,120>>}',
         'ResidTriples': '{<<1,1,1>>,<<1,1,2>>,<<1,2,1>>,<<1,2,3>>}',
         'MolTriples': '{<<0,0,0>>,<<0,0,1>>,<<0,1,0>>,<<0,1,2>>}',
         'ResnameTriples': '{<<"R","R","R">>,<<"U","U","U">>,<<"R","R","U">>}',
@@ -233,21 +234,28 @@ def _norm(a, b):
 
 
 def iter_dump(path, k, n):
-    """stream the states of a TLC dump file whose ordinal is k modulo n (the parent never parses the dump)"""
-    from . import tlaval
-    hdr = tlaval._STATE_HDR
-    num, body = None, []
-    with open(path) as fh:
-        for line in fh:
-            m = hdr.match(line)
-            if m:
-                if num is not None and num % n == k:
+    """stream the states of a TLC dump file whose header starts in the k-th of n equal byte ranges of the file (every state
+    is yielded by exactly one k; the parent never parses the dump)"""
+    size = os.path.getsize(path)
+    start, end = size * k // n, size * (k + 1) // n
+    body = None
+    with open(path, 'rb') as fh:
+        fh.seek(start)
+        pos = start
+        for raw in fh:
+            here = pos
+            pos += len(raw)
+            if raw.startswith(b'State ') and raw.rstrip().endswith(b':'):
+                if body is not None:
                     yield ''.join(body)
-                num, body = int(m.group(1)), [line[m.end():]]
-            elif num is not None:
-                body.append(line)
-    if num is not None and num % n == k:
-        yield ''.join(body)
+                    body = None
+                if here >= end:
+                    return
+                body = []
+            elif body is not None:
+                body.append(raw.decode())
+        if body is not None:
+            yield ''.join(body)
 
 
 def _replay_chunk(args):
@@ -1087,14 +1095,14 @@ def run(tier, seed, ev, vd):
         per_task = 1 if quick else 2
         real_tasks = [cases[i:i + per_task] for i in range(0, len(cases), per_task)]
         real_async = [pool.apply_async(c10_real.worker, ((chunk, R),)) for chunk in real_tasks]
-        per = 14 if quick else 600
-        nrandom = 180 if quick else 5000
+        per = 12 if quick else 450
+        nrandom = 150 if quick else 4000
         plan = [f for f in FAMILIES if f != 'random' for _ in range(per)] + ['random'] * nrandom
         random.Random(seed).shuffle(plan)
         nchunks = tlc.NCPU * (1 if quick else 12)
         trace_async = [pool.apply_async(_trace_chunk, ((c, seed * 7907 + i, R),)) for i, c in enumerate(common.chunks(plan, nchunks))]
         # ---- TAB (TLC in the parent while the workers are busy)
-        res = tlc.run('Bonds', TAB_CFG, consts=TAB_CONSTS[tier], dump=True, coverage=False, timeout=3000, workers=8)
+        res = tlc.run('Bonds', TAB_CFG, consts=TAB_CONSTS[tier], dump=True, coverage=False, timeout=3000, workers=8 if quick else 16)
         if res.violated:
             raise tlc.MachineryError('Bonds model violates %s: %s' % (res.violated, res.error_trace[-1:] if res.error_trace else ''))
         ev.add_tlc('TAB Bonds (3 atoms on a line; element-pair sweep)', res)
